@@ -58,7 +58,11 @@ Failing(h, e, fl) ==
           \* the command line is judged with the transition of the library operation it fronts
           IF a.op \notin CliOps THEN [cliOp |-> FALSE]
           ELSE IF a.op \in RelationalOps THEN
-            LET mustErr == ErrRel(h, a.op, recv, a.a)
+            LET \* `mask --ref-seq`: the window is given on the reference and converted first
+                viaRef  == a.op = "Mask" /\ Len(a.a.ref) > 0
+                RC      == Step(h, "RefCoordinates", recv, [name |-> a.a.ref, start |-> a.a.start, len |-> a.a.len])
+                aEff    == IF viaRef /\ ~RC.err THEN [a.a EXCEPT !.start = RC.ret.start, !.len = RC.ret.len] ELSE a.a
+                mustErr == (viaRef /\ RC.err) \/ ErrRel(h, a.op, recv, aEff)
                 x       == newObs[1]
                 \* the receiver as the operation would have left it: the printed rows, under the receiver's own policy
                 asPost  == [x EXCEPT !.pol = h[recv].pol, !.al = IF a.op = "TranslateByReference" THEN AMINOACIDS ELSE x.al]
@@ -68,16 +72,19 @@ Failing(h, e, fl) ==
             [errClass  |-> (e.kind = "err") = mustErr,
              recvState |-> obs[recv] = h[recv],
              allowed   |-> IF e.kind = "err" THEN n = Len(h)
-                           ELSE IF a.op \in CliQueryOps THEN mustErr \/ (newObs = <<>> /\ Allowed(h, a.op, recv, a.a, h[recv], <<>>, retq))
+                           ELSE IF a.op \in CliQueryOps THEN mustErr \/ (newObs = <<>> /\ Allowed(h, a.op, recv, aEff, h[recv], <<>>, retq))
                            ELSE mustErr \/ (Len(newObs) = 1 /\ ((a.op \in CliNeedsRet /\ ~a.full) \/
-                                  IF a.op \in CliCreators THEN Allowed(h, a.op, recv, a.a, h[recv], newObs, e.ret)
-                                  ELSE Allowed(h, a.op, recv, a.a, asPost, <<>>, e.ret))),
+                                  IF a.op \in CliCreators THEN Allowed(h, a.op, recv, aEff, h[recv], newObs, e.ret)
+                                  ELSE Allowed(h, a.op, recv, aEff, asPost, <<>>, e.ret))),
              frame |-> \A i \in 1..Len(h) : i <= n /\ obs[i] = h[i], views |-> views]
           ELSE LET R0 == Step(h, a.op, recv, a.a)
                    \* `subseq --ref-seq`: the window the reference coordinates designate, then its extraction
                    R  == IF a.op = "RefCoordinates"
                          THEN (IF R0.err THEN R0
                                ELSE CliOf("SubAlign", h[recv], Step(h, "SubAlign", recv, [start |-> R0.ret.start, len |-> R0.ret.len])))
+                         ELSE IF a.op \in {"RefSites", "InversePositions"}      \* `subsites --ref-seq` / `--reverse`
+                         THEN (IF R0.err THEN R0
+                               ELSE CliOf("SelectSites", h[recv], Step(h, "SelectSites", recv, [sites |-> R0.ret.sites])))
                          ELSE IF a.op = "Split" THEN CliSplit(h[recv], a.a)
                          ELSE CliOf(a.op, h[recv], R0) IN
           [errClass  |-> (e.kind = "err") = R.err,
